@@ -51,12 +51,13 @@ Fixpoint has_slash (s : string) : bool :=
 Definition is_abs (s : string) : bool :=
   match s with String c _ => Ascii.eqb c ch_slash | EmptyString => false end.
 
-(* util.AddYamlExtension (utils.go:203-212) *)
+(* util.AddYamlExtension (utils.go, since fe0ec16): .yaml stays, .yml becomes .yaml, any other suffix
+   (none, or a foreign one such as v1.2) is part of the name and .yaml is appended *)
 Definition add_yaml_ext (f : string) : string :=
   let e := ext f in
-  if String.eqb e "" then f ++ ".yaml"
+  if String.eqb e ".yaml" then f
   else if String.eqb e ".yml" then trim_suffix f e ++ ".yaml"
-  else f.
+  else f ++ ".yaml".
 
 (* dagStoreImpl.fileLocation (dag_store.go:133-139); path.Join(dir, name) = dir/name for a clean dir and a
    name that is a single non-empty path element other than . and .. *)
@@ -295,12 +296,13 @@ Section Store.
         | (e, _) => (w, e, [])
         end
     | ORename old new =>
-        match find_dag (w_defs w) old with
+        (* client.Rename (since fe0ec16) resolves both names through GetDetails = LoadWithoutEval(fileLocation) *)
+        match load_at (w_defs w) (file_loc dir old) with
         | (ROk, oldloc) =>
             match store_rename (w_defs w) old new with
             | (ROk, d) =>
                 let w1 := set_defs w d in
-                match find_dag d new with
+                match load_at d (file_loc dir new) with
                 | (ROk, newloc) =>
                     match hist_rename (w_hist w) oldloc newloc with
                     | Some h => (set_hist w1 h, ROk, [])
@@ -381,10 +383,5 @@ Definition empty_world : world := mkW [] [] [].
 Definition nl : string := String (ascii_of_nat 10) EmptyString.
 Definition template : bytes := "steps:" ++ nl ++ "  - name: step1" ++ nl ++ "    command: echo hello" ++ nl.
 
-(* the decidable per-name facts the theorems about rename / delete need (DESIGN.md A.3: string facts as
-   premises evaluated per name): the three name -> path rules of the code agree on the name *)
-Definition name_okb (dir name : string) : bool :=
-  let p := file_loc dir name in
-  negb (has_slash name) &&
-  match cands (dir ++ "/" ++ name) with c :: _ => String.eqb c p | [] => false end &&
-  String.eqb (craft p) p && String.eqb (add_yaml_ext p) p && is_abs p.
+(* the standing assumption on DAG ids: a single path element *)
+Definition id_ok (name : string) : bool := negb (has_slash name).
